@@ -309,7 +309,7 @@ def build_source(tier, seed):
     conds.append({"fn": "twin_trace", "twin": True})
     # rejection: the solver picks which hostile construct and where it is embedded
     names = sorted(REJECT)
-    parts.append("HOSTILE = %r\nWRAP = ['%%s', '(%%s)', 'x[0] + (%%s)', '(%%s) and x', 'x or (%%s)', 'not (%%s)', 'x[0] < (%%s)', '[%%s]', '(1, %%s)', '-(%%s)', '1 < (%%s) < 3']\n\n"
+    parts.append("HOSTILE = %r\nWRAP = ['%%s', '(%%s)', 'x[0] + (%%s)', '(%%s) and x', 'x or (%%s)', 'not (%%s)', 'x[0] < (%%s)', '[%%s]', '(1, %%s)', '-(%%s)', '1 < (%%s) < 3', 'x[%%s]', 'x[%%s:]', 'x[:%%s]', 'x[::%%s]', 'x[1:2:%%s]', '(x[0], x[::%%s])', 'x[x[%%s]]', 'x[1:][::%%s]', 'x[0] ** (%%s)', '(%%s) or 1', '[1, [2, %%s]]', 'x[-(%%s)]']\n\n"
                  % [REJECT[k] for k in names])
     parts.append('''
 class _Boom(tuple):
@@ -320,11 +320,7 @@ class _Boom(tuple):
         return tuple.__getitem__(self, i)
 
 
-def rejects(k: int, w: int) -> bool:
-    """
-    pre: 0 <= k < len(HOSTILE) and 0 <= w < len(WRAP)
-    post: _
-    """
+def _rejects(k, w):
     src = WRAP[w] % HOSTILE[k]
     _Boom.touched.clear()
     try:
@@ -353,7 +349,7 @@ def twin_rejects(k: int, w: int) -> bool:
     pre: 0 <= k < len(HOSTILE) and 0 <= w < len(WRAP)
     post: False
     """
-    return rejects(k, w)
+    return _rejects(k, w)
 
 
 def when_and_params_use_expression(a: int, b: int, c: int) -> bool:
@@ -370,7 +366,12 @@ def when_and_params_use_expression(a: int, b: int, c: int) -> bool:
     return cond == (a < b <= c) and val == a * b - c and type(val) is int and isinstance(inst.params["phi"], str) is False and str(inst.params["phi"]) == "x[0] * x[1] - x[2]"
 
 ''')
-    conds.append({"fn": "rejects", "desc": "every construct outside the documented grammar, embedded at a solver-chosen position, raises InvalidExpression at construction (Expression, .when, string parameter) without touching x", "timeout_s": 120})
+    nwrap = 23
+    for w in range(nwrap):
+        parts.append('def rejects_w%02d(k: int) -> bool:\n    """\n    pre: 0 <= k < len(HOSTILE)\n    post: _\n    """\n    return _rejects(k, %d)\n\n' % (w, w))
+        conds.append({"fn": "rejects_w%02d" % w, "timeout_s": 60,
+                      "desc": "every construct outside the documented grammar (solver-chosen from the table), embedded in template #%d, raises InvalidExpression at construction (Expression, .when, string parameter) without touching x" % w})
+    parts.append('assert len(WRAP) == %d\n\n' % nwrap)
     conds.append({"fn": "twin_rejects", "twin": True, "timeout_s": 60})
     conds.append({"fn": "when_and_params_use_expression", "desc": "Instruction.when / string parameters evaluate through Expression: condition and resolved parameter equal Python's value for all outcomes"})
     return "".join(parts), conds, srcs
